@@ -341,6 +341,40 @@ async def _sc_iter_anext():
     return out
 
 
+async def _sc_long_sync_inputs():
+    """LONG all-synchronous inputs (10 000 items, past any plausible internal batch size): every operation still completes
+    without suspending once - a periodic "cooperative" checkpoint inside the library would reach the loop as a foreign token"""
+    import operator
+    n = 10000
+    out = []
+    out.append(len(await A.list(range(n))))
+    out.append(len(await A.tuple(iter(range(n)))))
+    out.append(await A.sum(range(n)))
+    out.append(await A.min(range(n), key=lambda x: -x))
+    out.append(await A.max(x for x in range(n)))
+    out.append(await A.all(range(1, n)))
+    out.append(await A.any(A.map(lambda x: False, range(n))))
+    out.append(len(await A.sorted(range(n), reverse=True)))
+    out.append(len(await A.set(range(n))))
+    out.append(await A.reduce(operator.add, range(n)))
+    out.append(await A.nlargest(range(n), 2))
+    out.append(len([x async for x in A.zip(range(n), iter(range(n)))]))
+    out.append(len([x async for x in A.filter(None, range(n))]))
+    out.append(len([x async for x in A.enumerate(range(n))]))
+    out.append(len([x async for x in A.islice(range(n), 1, None, 2)]))
+    out.append(len([x async for x in A.chain(range(n), range(n))]))
+    out.append(len([x async for x in A.batched(range(n), 3)]))
+    out.append(len([x async for x in A.accumulate(range(n))]))
+    out.append(len([x async for x in A.merge(range(n), range(n))]))
+    out.append(len([x async for x in A.takewhile(lambda x: True, range(n))]))
+    out.append(len([x async for x in A.pairwise(range(n))]))
+    a, b = A.tee(range(n), n=2)
+    out.append(len([x async for x in a]) + len([x async for x in b]))
+    out.append(sum([1 async for k, g in A.groupby(range(n), key=lambda x: x // 100)]))
+    out.append(len([x async for x in A.any_iter(range(n))]))
+    return out
+
+
 # ---- family 3: two tasks interleaved by hand: while task A is suspended inside a user awaitable, task B runs -------
 
 
@@ -553,6 +587,7 @@ SCENARIOS = {
     "contextmanager": _sc_contextmanager, "decorator": _sc_decorator, "exitstack": _sc_exitstack,
     "closing_nullcontext": _sc_closing_nullcontext, "tee_nolock": lambda: _sc_tee(None), "tee_lock": lambda: _sc_tee(_Lock()),
     "groupby": _sc_groupby, "borrow_scoped": _sc_borrow_scoped, "asynctools": _sc_asynctools, "iter_anext": _sc_iter_anext,
+    "long_sync_inputs": _sc_long_sync_inputs,
 }
 
 
